@@ -108,6 +108,8 @@ type c06World struct {
 	T, S  *xibctesting.TestChain
 	// mirrors used by the ORACLE only (what governance registered / configured last)
 	lastReg  map[string]c06Reg
+	junkKeys map[string]bool // opaque metadata keys injected by genesis documents (not re-exported by any client type)
+	genClass string          // class of the last genesis document this world was started from ("" = built through keepers)
 	restarts int
 	dryRegs  []c06Dry          // registrations that ran on DISCARDED context branches (for the distribution only; never in lastReg)
 	tssCfg   map[string]string // chain -> TSS address as configured (mkclient) / rotated (accepted TSS update)
@@ -649,6 +651,8 @@ func (w *c06World) apply1(r *Rec, f []string) string {
 		return w.applyRegDry(r, f)
 	case "restart":
 		return w.applyRestart(r, f)
+	case "genesis":
+		return w.applyGenesis(r, f)
 	case "q":
 		var auth bool
 		var other, tele string
@@ -979,6 +983,10 @@ func (w *c06World) applyMsg(r *Rec, f []string) string {
 			}
 		}
 	}
+	if w.genClass != "" {
+		r.Count("msg.after-genesis.attempted")
+		r.Count("msg.after-genesis." + w.genClass)
+	}
 	if w.restarts > 0 {
 		r.Count("msg.after-restart.attempted")
 		if kind != "ack" && registered && !regForChain {
@@ -1083,6 +1091,10 @@ func (w *c06World) applyMsg(r *Rec, f []string) string {
 			w.find(r, "C06/"+kind+"-accepted-from-unregistered-signer", kind+" accepted although governance did not register the signer for chain "+chain,
 				"accepted; last registration of signer: "+fmt.Sprint(lr.chains), "rejected")
 		}
+	}
+	if w.genClass != "" && ((isTss && !c06SameAccount(raw, tssAddr)) || (kind != "ack" && !regForChain)) {
+		w.find(r, "C06:drive-accepted-from-unconfigured-account:genesis-"+w.genClass, kind+" accepted from an account the validated sections of the genesis document do not configure for chain "+chain,
+			"accepted", "rejected")
 	}
 	if isTss && !c06SameAccount(raw, tssAddr) {
 		w.find(r, "C06/"+kind+"-accepted-for-tss-client-from-other-account", kind+" accepted for a TSS-secured chain from an account that is not the configured TSS account",
